@@ -427,6 +427,13 @@ def gen_box(rng, d, kinds=None):
         elif kind == "huge":
             lo = rng.uniform(-1e3, 1e3)
             hi = lo + 10 ** rng.uniform(3, 5)
+        elif kind == "mixed_scales":
+            # edge lengths that differ by many orders of magnitude between the dimensions (one tolerance cannot fit all of them)
+            w = rng.choice([1.0, 1e8, 5e9, 1e-6]) if len(a) else rng.choice([1.0, 1.0, 1e-6])
+            if len(a) == 1 and abs(math.log10(w) - math.log10(b[0] - a[0])) < 5:
+                w = 1e8 if (b[0] - a[0]) < 1e3 else 1.0
+            lo = rng.choice([0.0, -0.4 * w, rng.uniform(-1, 1) * w])
+            hi = lo + w
         elif kind == "integer":
             lo = float(rng.choice([-3, -2, -1, 0, 1, 2, 5]))
             hi = lo + float(rng.choice([1, 2, 4, 8]))
